@@ -124,6 +124,12 @@ func script(t N) string {
 	// script callbacks run as spawned calls while the spawner keeps running
 	// the arguments (and the callee) of a go statement are evaluated at the statement, also when they are calls
 	sb.WriteString("func dbl(a) {\nreturn a * 2\n}\nfunc mkw() {\nreturn func(a, d) { d <- (a + 1) }\n}\ngo addsend(dbl(3), dbl(0) + 1, dd)\ng19 := <-dd\ngo dd.send(dbl(21))\ng20 := <-dd\ngo mkw()(dbl(5), dd)\ng21 := <-dd\nmark(\"go\", 19, [g19, g20, g21])\n")
+	// a send on a CLOSED channel transfers nothing and raises an error in every form of send (Chan!SendRefused)
+	sb.WriteString("cz := chan(1)\nclose(cz)\nz1 := try(func() {\ncz <- 1\nreturn \"sent\"\n}, func(e) { return \"err\" })\n" +
+		"z2 := try(func() {\ncz.send(1)\nreturn \"sent\"\n}, func(e) { return \"err\" })\n" +
+		"z3 := try(func() {\nspawn(cz.send, 1).wait()\nreturn \"sent\"\n}, func(e) { return \"err\" })\n" +
+		"z4 := try(func() {\ncz.send.spawn(2).wait()\nreturn \"sent\"\n}, func(e) { return \"err\" })\n" +
+		"mark(\"closedsend\", 20, [z1, z2, z3, z4, <-cz])\n")
 	sb.WriteString("mark(\"hostspawn\", 15, hostfan(func(a) { return a * 10 }, [1, 2, 3, 4]))\n")
 	sb.WriteString("items := []\nfor i := 0; i < 20; i++ {\nitems.append(i)\n}\ncb := chan()\ntq := spawn(items.map, func(x) {\ncb <- (x * 2)\nreturn x + 1\n})\nrq := []\nfor i := 0; i < 20; i++ {\nrq.append(<-cb)\n}\nmark(\"spawnbuiltin\", 16, [rq, tq.wait()])\n")
 	sb.WriteString("go items.each(func(x) { cb <- (x * 3) })\nrg := []\nfor i := 0; i < 20; i++ {\nrg.append(<-cb)\n}\nmark(\"spawnbuiltin\", 18, rg)\n")
